@@ -28,16 +28,17 @@ func c16Check(c *Case) []Violation {
 	bs := asL(req["biases"])
 	props := asM(asM(bs[len(bs)-1])["props"])
 	t := lastTransition(req, nil)
-	if t.err != nil {
-		if t.failAt >= 0 && t.failAt < len(bs)-1 {
-			stat("prefix_failed(C07's subject)")
-			return nil
-		}
-		return []Violation{viol(c, "C16/rejected", "preference reversal failed: %v", t.err)}
+	if t.err != nil && t.failAt >= 0 && t.failAt < len(bs)-1 {
+		stat("prefix_failed(C07's subject)")
+		return nil
 	}
 	var vs []Violation
 	prev, next := t.prev, t.next
 	n := len(prev.Criteria)
+	if t.err != nil {
+		// the state before the failing step is the stepper's current state
+		n = len(StateOf(t.st.Current).Criteria)
+	}
 	k := int(math.Floor(float64(n) * asF(props["ratio"])))
 	if v, ok := props["min"]; ok && k < int(asF(v)) {
 		k = int(asF(v))
@@ -45,8 +46,11 @@ func c16Check(c *Case) []Violation {
 		k = int(asF(v))
 	}
 	if k > n {
-		stat("outside_domain_k_gt_n")
+		stat("outside_domain_min_above_criteria_count")
 		return nil
+	}
+	if t.err != nil {
+		return []Violation{viol(c, "C16/rejected", "preference reversal failed: %v", t.err)}
 	}
 	reps := asL(t.props["reversedPreferenceCriteria"])
 	if len(reps) != k {
